@@ -617,7 +617,9 @@ async fn bind(a: &[String]) -> Vec<String> {
 
 async fn keepalive(a: &[String]) -> Vec<String> {
     let which = arg(a, 0).to_string();
-    let ka_ms = arg_u64(a, 1);
+    // `override`: keep-alive is first switched on (150 ms), then switched off again on the same builder
+    let override_off = arg(a, 1) == "override";
+    let ka_ms = if override_off { 0 } else { arg_u64(a, 1) };
     let server_side = which == "server";
     let fail = |e: String| vec!["after_2s=-".to_string(), format!("err={e}")];
     let rt = match TestRt::new(RT) {
@@ -639,9 +641,12 @@ async fn keepalive(a: &[String]) -> Vec<String> {
                     .with_no_cert_validation()
                     .max_idle_timeout(idle_to)
                     .map_err(|_| "idle_timeout".to_string())?;
+                let on = Some(Duration::from_millis(150));
                 let (scfg, ccfg) = if server_side {
+                    let sb = if override_off { sb.keep_alive_interval(on) } else { sb };
                     (sb.keep_alive_interval(ka).build(), cb.build())
                 } else {
+                    let cb = if override_off { cb.keep_alive_interval(on) } else { cb };
                     (sb.build(), cb.keep_alive_interval(ka).build())
                 };
                 let sep = Endpoint::server(scfg).map_err(|e| format!("bind:{:?}", e.kind()))?;
@@ -1275,7 +1280,7 @@ fn gen_c20(emit: &mut dyn FnMut(&str, Vec<String>)) {
     }
     for which in ["server", "client"] {
         emit("alpn", vec![s(which)]);
-        for ka in [0u64, 150] {
+        for ka in ["0", "150", "override"] {
             emit("keepalive", vec![s(which), s(ka)]);
         }
     }
